@@ -14,7 +14,7 @@ RULE = ('contents constructed from the bit-cost model so that every residue (str
 ASSUMPTIONS = common.ASSUME_QR
 REQUIRED = ['evaluations', 'encode_observed', 'symbols_decoded', 'tails_checked', 'tails_with_pad_codewords',
             'tails_truncated_terminator', 'tails_m1m3']
-TIMEOUT = {'quick': 900, 'thorough': 7200}
+TIMEOUT = {'quick': 3600, 'thorough': 21600}
 
 
 def gen_cases(tier, seed):
